@@ -443,6 +443,20 @@ theorem good_withScopeContentND {α} (sc : List Nat) (ct : Option Closure) {body
   | fuel => trivial
   | unsupported w => trivial
 
+theorem good_withScopeContentD {α} (sc : List Nat) (ct : Option Closure) {body : M α} (hb : Good body) :
+    Good (withScopeContentD sc ct body) := by
+  refine ⟨fun rt hwf => ?_⟩
+  unfold withScopeContentD
+  have hb1 := hb.post { rt with scope := sc, content := ct } (by intro k hk; exact hwf k hk)
+  cases hbr : body { rt with scope := sc, content := ct } with
+  | ok a rt2 =>
+    rw [hbr] at hb1
+    exact ⟨Ext.congr_right (Ext.congr_left (a' := rt) hb1.1 rfl rfl rfl) rfl rfl rfl, ⟨rfl, hb1.2.ctx, rfl⟩⟩
+  | err e rt2 => rw [hbr] at hb1; exact Ext.congr_right (Ext.congr_left (a' := rt) hb1 rfl rfl rfl) rfl rfl rfl
+  | crash s rt2 => rw [hbr] at hb1; exact Ext.congr_right (Ext.congr_left (a' := rt) hb1 rfl rfl rfl) rfl rfl rfl
+  | fuel => trivial
+  | unsupported w => trivial
+
 /-- a deferred context restore: on success and on failure the context is put back -/
 theorem good_withCtxD {α} {e : M Val} {body : M α} (he : Good e) (hb : Good body) : Good (withCtxD e body) := by
   refine ⟨fun rt hwf => ?_⟩
